@@ -269,3 +269,180 @@ def page_requests(rng, pgsz, maxpfn, pfns, aspace="M", limit=48):
         p = rng.choice(pfns)
         want.append("R%s:%x:%x" % (aspace, p * pgsz + rng.randrange(pgsz), rng.randint(1, 4 * pgsz)))
     return want
+
+
+# ---------------------------------------------------------------------------
+# ELF core dumps
+# ---------------------------------------------------------------------------
+
+# (w64, be) -> [(e_machine, default page shift or 0, pointer size or None)]
+ELF_MACHINES = {
+    (1, 0): [(62, 12, 8), (62, 12, 8), (183, 0, 8), (243, 12, 8)],   # x86_64, aarch64, riscv64
+    (0, 0): [(3, 12, 4), (40, 12, 4), (8, 12, 4)],                   # i386, arm, mips
+    (1, 1): [(22, 12, 8), (21, 0, 8)],                               # s390x, ppc64
+    (0, 1): [(20, 0, 4), (22, 12, 4), (8, 12, 4)],                   # ppc, s390, mips
+}
+
+
+def write_segs(path, segs):
+    with open(path, "wb") as f:
+        f.write(struct.pack("<I", len(segs)))
+        for s in segs:
+            f.write(struct.pack("<IIQQQQII", s["type"], s["flags"], s["phys"], s["virt"], s["memsz"],
+                                s["align"], s["gap"], len(s["data"])) + s["data"])
+
+
+def seg_data(rng, n):
+    if n == 0:
+        return b""
+    k = rng.random()
+    if k < 0.2:
+        return bytes([rng.randrange(1, 256)]) * n
+    if k < 0.5:
+        return bytes(rng.getrandbits(8) for _ in range(n))
+    out = bytearray((i * 7 + 1) & 0xff for i in range(n))
+    out[0] = rng.randrange(1, 256)
+    out[-1] = rng.randrange(1, 256)
+    return bytes(out)
+
+
+def gen_elf(rng, big=False):
+    """One ELF core layout: returns (layout dict, segments, info)."""
+    w64 = rng.randint(0, 1)
+    be = rng.randint(0, 1)
+    machine, defshift, ptr = rng.choice(ELF_MACHINES[(w64, be)])
+    shift = defshift
+    vmci = b"OSRELEASE=5.14.21-test\n"
+    if not defshift or rng.random() < 0.25:
+        shift = rng.choice([12, 12, 12, 13, 13, 14, 16]) if (not defshift or rng.random() < 0.5) else defshift
+        vmci += b"PAGESIZE=%d\n" % (1 << shift)
+    pgsz = 1 << shift
+    addr_lim = (1 << 32) - 2 * pgsz if not w64 else (1 << 46)
+    nload = rng.randint(1, 6)
+    loads = []
+    cur = rng.choice([0, pgsz, 16 * pgsz, 0x100000, rng.randrange(0, 64) * pgsz])
+    for i in range(nload):
+        # gap before this segment: none (adjacent), sub-page, exactly one page, several pages
+        g = rng.choice([0, 0, rng.randrange(1, pgsz), pgsz, pgsz, rng.randrange(2, 9) * pgsz,
+                        pgsz + rng.randrange(1, pgsz)])
+        if i == 0:
+            g = 0
+        start = cur + g
+        if rng.random() < 0.55:
+            start = (start + pgsz - 1) & ~(pgsz - 1)          # page aligned start
+        k = rng.random()
+        if k < 0.5:
+            filesz = rng.randrange(1, 4) * pgsz
+        elif k < 0.8:
+            filesz = rng.randrange(1, 3 * pgsz)
+        elif k < 0.9:
+            filesz = 0
+        else:
+            filesz = rng.randrange(1, 64)
+        k = rng.random()
+        if k < 0.5:
+            memsz = filesz
+        elif k < 0.8:
+            memsz = filesz + rng.randrange(1, 3) * pgsz
+        else:
+            memsz = filesz + rng.randrange(1, 2 * pgsz)
+        if rng.random() < 0.5:
+            memsz = (start + memsz + pgsz - 1) // pgsz * pgsz - start   # page aligned end
+        if memsz == 0:
+            memsz = pgsz
+        if start + memsz >= addr_lim:
+            break
+        loads.append({"type": 1, "flags": 7, "phys": start, "memsz": memsz, "data": seg_data(rng, filesz),
+                      "align": rng.choice([0, pgsz]), "gap": 0})
+        cur = start + memsz
+    if not loads:
+        loads.append({"type": 1, "flags": 7, "phys": pgsz, "memsz": pgsz, "data": seg_data(rng, pgsz),
+                      "align": 0, "gap": 0})
+    if len(loads) > 1 and all(s["phys"] == 0 for s in loads):
+        loads[-1]["phys"] += pgsz
+    # virtual addresses: disjoint ranges, in an order that may differ from the physical one
+    vbase = (0xffff880000000000 if w64 else 0xc0000000) if rng.random() < 0.7 else (16 * pgsz)
+    order = list(range(len(loads)))
+    mode = rng.random()
+    if mode < 0.45:                      # linear mapping: virt = phys + const
+        for s in loads:
+            s["virt"] = (vbase + s["phys"]) & ((1 << (64 if w64 else 32)) - 1)
+        if not w64 and any(s["virt"] + s["memsz"] >= (1 << 32) or s["virt"] < s["phys"] and vbase for s in loads):
+            mode = 0.5
+    if mode >= 0.45:                     # packed in a shuffled order, keeping each segment's page offset
+        rng.shuffle(order)
+        vcur = vbase if (w64 or vbase + sum(s["memsz"] + 3 * pgsz for s in loads) < (1 << 32)) else 16 * pgsz
+        for i in order:
+            s = loads[i]
+            vcur = (vcur + pgsz - 1) // pgsz * pgsz + (s["phys"] % pgsz)
+            s["virt"] = vcur
+            vcur += s["memsz"] + rng.choice([0, 0, pgsz, rng.randrange(1, 2 * pgsz)])
+    note = {"type": 4, "flags": 0, "phys": 0, "virt": 0, "memsz": 0, "align": 0, "gap": 0,
+            "data": elf_note(be, b"VMCOREINFO", 0, vmci)}
+    segs = [note] + loads
+    if rng.random() < 0.3:
+        segs.append({"type": rng.choice([0, 6, 0x6474e551]), "flags": 0, "phys": 0x5000, "virt": 0x5000,
+                     "memsz": pgsz, "align": 0, "gap": 0, "data": b"ignored"})
+    rng.shuffle(segs)
+    phgap = rng.choice([0, 0, 16, 64])
+    phextra = rng.choice([0, 0, 0, 8, 24])
+    off = (64 if w64 else 52) + phgap + ((56 if w64 else 32) + phextra) * len(segs)
+    for s in segs:
+        s["gap"] = rng.choice([0, 0, 4, pgsz - 8, 100, 3])
+        if s["type"] == 4:                      # the note parser reads 32-bit words in place
+            s["gap"] += (-(off + s["gap"])) % 4
+        off += s["gap"] + len(s["data"])
+    lay = {"be": be, "w64": w64, "machine": hx(machine), "osabi": hx(rng.choice([0, 3])),
+           "eflags": hx(rng.choice([0, 1])), "phgap": hx(phgap),
+           "phextra": hx(phextra), "pgsz": hx(pgsz), "ptr": hx(ptr)}
+    info = {"pgsz": pgsz, "loads": loads, "w64": w64,
+            "key": "elf w%d be%d m%d pg%d n%d%s" % (64 if w64 else 32, be, machine, shift, len(loads),
+                                                    " vshuf" if mode >= 0.45 else ""),
+            "pfns": sorted({(s["phys"] + o) // pgsz for s in loads for o in (0, max(len(s["data"]) - 1, 0))}),
+            "maxpfn": max((s["phys"] + s["memsz"] + pgsz - 1) // pgsz for s in loads)}
+    return lay, segs, info
+
+
+def elf_covered(loads, pgsz, virt, zero_excluded, page_addr):
+    """Does the page hold a file-backed byte (or, with zero-fill, a byte of a memory range)?"""
+    for s in loads:
+        a = s["virt"] if virt else s["phys"]
+        size = s["memsz"] if zero_excluded else len(s["data"])
+        if size and a < page_addr + pgsz and page_addr < a + size:
+            return True
+    return False
+
+
+def elf_requests(rng, info, virt, zero_excluded, limit=40):
+    """Page reads at every boundary of every segment (start, end of file data,
+    end of memory range: the page holding it and both neighbours) and ranges
+    that straddle them.  Virtual requests only touch covered pages (an
+    uncovered virtual page sends the library to address translation)."""
+    pgsz, loads = info["pgsz"], info["loads"]
+    a = "V" if virt else "M"
+    pages = set()
+    marks = []
+    for s in loads:
+        base = s["virt"] if virt else s["phys"]
+        for m in (base, base + len(s["data"]), base + s["memsz"]):
+            marks.append(m)
+            for d in (-1, 0, 1):
+                p = m // pgsz + d
+                if p >= 0:
+                    pages.add(p)
+    pages = sorted(pages)
+    if len(pages) > limit:
+        pages = sorted(rng.sample(pages, limit))
+    ok = lambda addr, n: all(elf_covered(loads, pgsz, virt, zero_excluded, p * pgsz)
+                             for p in range(addr // pgsz, (addr + max(n, 1) - 1) // pgsz + 1))
+    reqs = []
+    for p in pages:
+        if not virt or ok(p * pgsz, pgsz):
+            reqs.append("R%s:%x:%x" % (a, p * pgsz, pgsz))
+    for m in marks[:16 if pgsz <= 8192 else 4]:
+        k = rng.choice([1, 3, 8, pgsz // 2])
+        for addr, n in ((m - k, 2 * k), (m, k), (m - k, k + pgsz)):
+            if addr >= 0 and (not virt or ok(addr, n)):
+                reqs.append("R%s:%x:%x" % (a, addr, n))
+    rng.shuffle(reqs)        # the last_load / last_vload shortcut sees every order
+    return reqs
